@@ -27,7 +27,7 @@ theorem apply_place_{kind}_{cl} (basis : Array W) (p : Pos) (x y : Nat) (hx : x 
   simp only [Bool.or_eq_false_iff] at hemp
   unfold Pos.apply
   simp [Facts.mtPlaceFlat, Facts.mtPlaceCapstone, Facts.mtPlaceStanding, Facts.mtPass, hw, h2, hx', hy', hxn, hyn, hidx,
-    hemp.1, hemp.2, hst]
+    hemp.1, hemp.2, hst, dispatch, openingRule, placeOn]
   apply finish_exists
   intro wg bg hwg hbg
   constructor <;> simp only [] <;> first | rfl | assumption | place_bits hs64
